@@ -1113,7 +1113,7 @@ package yang
 // The rest of Type.resolve (restrictions, unions) is outside this contract.
 //@ spec scopeFind(d *typeDictionary, n Node, name string) *Typedef = n == nil ? nil : (dictFind(d, n, name) != nil ? dictFind(d, n, name) : scopeFind(d, nodeParent(n), name))
 //@ pred localName(t *Type) = pfxOf(t.Name) == "" || pfxOf(t.Name) == ownPrefix(rootOf(iface(t)))
-//@ func (*Type).resolve props C09 C14 C18 C11 C16
+//@ func (*Type).resolve props C09 C14 C18 C11 C16 C10
 //@   ensures[a-type-that-is-resolved-answers-with-the-errors-found-then] old(t.YangType) != nil ==> result == old(t.resolveErrs) && t.YangType == old(t.YangType)
 //@   requires t != nil && d != nil && rootOf(iface(t)) != nil && rootOf(iface(t)).Modules != nil && (forall m *Module :: modOK(m))
 //@   requires forall i int :: 0 <= i && i < len(rootOf(iface(t)).Import) ==> rootOf(iface(t)).Import[i] != nil && rootOf(iface(t)).Import[i].Prefix != nil
@@ -1127,6 +1127,8 @@ package yang
 //@                         || (exists j int :: 0 <= j && j < len(nsOwner(rootOf(iface(t))).Include) && arg0 == dictFind(d, boxptr(nsOwner(rootOf(iface(t))).Include[j].Module), baseOf(t.Name))))))
 //@   before[a-foreign-prefix-denotes-the-module-imported-under-it] (*Typedef).resolve old(BaseTypedefs[t.Name]) == nil && !old(localName(t))
 //@            ==> inTopLevel(d, importOf(rootOf(iface(t)), old(pfxOf(t.Name))), old(baseOf(t.Name)), arg0)
+//@   before[a-range-narrows-the-range-inherited-so-far] (YangRange).parseChildRanges#1 arg0 == y.Range && arg1 == t.Range.Name
+//@   before[a-length-narrows-the-length-inherited-so-far-whichever-typedef-of-the-chain-wrote-it] (YangRange).parseChildRanges#2 arg1 == t.Length.Name && (len(y.Length) > 0 ==> arg0 == y.Length)
 //@   before[a-foreign-name-is-looked-up-and-reported-for-the-type-statement-itself] (*typeDictionary).findExternal arg1 == iface(t)
 //@   before[an-identityref-looks-up-the-base-it-names-from-the-module-it-is-written-in] (*Module).findIdentityBase arg0 == rootOf(t.Parent) && arg1 == t.IdentityBase.Name
 //@   before[every-enum-member-is-offered-with-its-own-name-and-value] (*Type).resolve$set#1 arg0 == enum && arg1 == e.Name && arg2 == e.Value
